@@ -17,6 +17,7 @@ func (q *queueNoLimitTrackerImpl) len() int   { return q.length }
 func (q *queueNoLimitTrackerImpl) cap() int   { return math.MaxInt }
 func (q *queueNoLimitTrackerImpl) add() error { q.length++; return nil }
 func (q *queueNoLimitTrackerImpl) remove() {
+	verifGuard("pubsub.tracker.remove", q)
 	if q.length == 0 {
 		return
 	}
@@ -31,6 +32,7 @@ type queueHardLimitTracker struct {
 func (q *queueHardLimitTracker) len() int { return q.length }
 func (q *queueHardLimitTracker) cap() int { return q.capacity }
 func (q *queueHardLimitTracker) remove() {
+	verifGuard("pubsub.tracker.remove", q)
 	if q.length == 0 {
 		return
 	}
@@ -39,6 +41,7 @@ func (q *queueHardLimitTracker) remove() {
 }
 
 func (q *queueHardLimitTracker) add() error {
+	verifGuard("pubsub.tracker.add", q)
 	if q.length >= q.capacity {
 		return ErrQueueFull
 	}
@@ -64,6 +67,7 @@ func newQueueLimitTracker(opts QueueOptions) queueLimitTracker {
 func (q *queueLimitTrackerImpl) cap() int { return q.softQuota }
 func (q *queueLimitTrackerImpl) len() int { return q.length }
 func (q *queueLimitTrackerImpl) add() error {
+	verifGuard("pubsub.tracker.add", q)
 	if q.length >= q.softQuota {
 		if q.length == q.hardLimit {
 			return ErrQueueFull
@@ -84,6 +88,7 @@ func (q *queueLimitTrackerImpl) add() error {
 }
 
 func (q *queueLimitTrackerImpl) remove() {
+	verifGuard("pubsub.tracker.remove", q)
 	q.length--
 
 	if q.length < q.softQuota {
